@@ -3,11 +3,21 @@
 //! `VERIF-REPORT` line.
 use vcommon::{Args, Report};
 
+mod c19;
+mod c20;
+mod c21;
+mod c22;
 mod c23;
+mod c25;
+mod c26;
+mod c27;
 mod c32;
 mod c33;
+mod c35;
+mod c36;
 mod c39;
 mod c40;
+mod rawarena;
 mod unitvm;
 
 fn main() {
@@ -15,9 +25,18 @@ fn main() {
     let which = args.positional.first().cloned().unwrap_or_default();
     let mut rep = Report::new(&which);
     match which.as_str() {
+        "C19" => c19::run(&args, &mut rep),
+        "C20" => c20::run(&args, &mut rep),
+        "C21" => c21::run(&args, &mut rep),
+        "C22" => c22::run(&args, &mut rep),
         "C23" => c23::run(&args, &mut rep),
+        "C25" => c25::run(&args, &mut rep),
+        "C26" => c26::run(&args, &mut rep),
+        "C27" => c27::run(&args, &mut rep),
         "C32" => c32::run(&args, &mut rep),
         "C33" => c33::run(&args, &mut rep),
+        "C35" => c35::run(&args, &mut rep),
+        "C36" => c36::run(&args, &mut rep),
         "C39" => c39::run(&args, &mut rep),
         "C40" => c40::run(&args, &mut rep),
         _ => {
